@@ -96,6 +96,7 @@ func runChild(dir string, id int, c scase, rnd *rand.Rand) ([]string, error) {
 	logPath := fmt.Sprintf("%s/child_%d.log", dir, id)
 	os.Remove(logPath)
 	cmd := exec.Command(os.Args[0], "-test.run=^TestC16Child$")
+	hx.DieWithParent(cmd)
 	cmd.Env = append(os.Environ(), "VERIF_C16_CHILD="+logPath, "VERIF_C16_N="+strconv.Itoa(c.N), "VERIF_C16_STOPPER="+strconv.Itoa(c.Stopper), "VERIF_OUT=")
 	if err := cmd.Start(); err != nil {
 		return nil, err
